@@ -382,3 +382,38 @@ def checkers_pins_definition(facts):
                 b.locals[1]["ty"].startswith("&") and b.locals[2]["ty"].endswith("color::Color"):
             out.append(k)
     return sorted(out)
+
+
+def run_closure_in_context(facts, clos, store, **kw):
+    """execute a closure body with its captured variables bound to what they hold in `store` (the store of the
+    path of the enclosing function that created the closure): by-reference captures are re-rooted at ('U', i)"""
+    if clos[0] != "closure":
+        return None, []
+    cb = facts.bodies.get(clos[1])
+    if cb is None:
+        return None, []
+    entry = {}
+    ups = []
+    for i, u in enumerate(clos[2]):
+        if isinstance(u, tuple) and u and u[0] == "ptr":
+            root, path = u[1], u[2]
+            v = store.get(root)
+            if v is None:
+                v = ("undef", root)
+            ops = sym.Ops(facts)
+            if path:
+                v = ops.project(v, path)
+            entry[("U", i)] = v
+            ups.append(("ptr", ("U", i), (), u[3]))
+        else:
+            ups.append(u)
+    env_ty = cb.locals[1]["ty"]
+    val = ("closure", clos[1], tuple(ups))
+    params = {}
+    if env_ty.startswith("&"):
+        entry[("ENV", 0)] = val
+        params[cb.local_name(1)] = ("ptr", ("ENV", 0), (), env_ty.startswith("&mut"))
+    else:
+        params[cb.local_name(1)] = val
+    se = sym.SymExec(facts, cb, params=params, entry_store=entry, **kw)
+    return cb, se.run()
